@@ -1,5 +1,5 @@
 #!/bin/sh
-# run_seed.sh <dir-with-patch.diff> <PROP> [<PROP>...]: applies a seeded change to /repo, runs the quick
+# run_seed.sh <dir-with-patch.diff> <PROP> [<PROP>...]  (SEED_ONLY=<harness name fragment> restricts the run): applies a seeded change to /repo, runs the quick
 # checks of the named properties, and undoes the change straight afterwards.
 d=$1; shift
 cd /repo || exit 9
@@ -7,9 +7,9 @@ if [ -n "$(git status --porcelain)" ]; then echo "/repo is not clean"; exit 9; f
 git apply $d/patch.diff || { echo "patch does not apply"; exit 9; }
 res=""
 for p in "$@"; do
-  (cd /verif && ./check $p --tier ${SEED_TIER:-quick} > $d/check-$p.log 2>&1); rc=$?
+  (cd /verif && ./check $p --tier ${SEED_TIER:-quick} ${SEED_ONLY:+--only $SEED_ONLY} > $d/check-$p.log 2>&1); rc=$?
   line=$(grep -E "^VIOLATION|^INCONCLUSIVE|^OK" $d/check-$p.log | head -2 | tr '\n' ' ')
-  res="$res $p:exit=$rc"
+  res="$res $p${SEED_ONLY:+[only=$SEED_ONLY]}:exit=$rc"
   echo "  $p exit=$rc $line"
 done
 git -C /repo checkout -- .
